@@ -16,6 +16,26 @@ Definition chunks {A} (k : nat) (l : list A) : list (list A) := chunks_fuel (len
 Section WithCtx.
   Context (cx : ctx).
 
+  (** what a codec writer wrapped around the stream does to it when [plain] is written through it
+      and it is then flushed (sync; the encoder is finished by Drop) or closed (async):
+      [z] is the complete compressed output.  With [CNone] the writer is the stream itself. *)
+  Definition ws_write_codec (asy : bool) (c : compression) (st : wstream) (plain z : bytes) : wstream :=
+    if asy then ws_log_ev (ws_write st z) EvClose
+    else match c with
+         | CNone | CUnknown => ws_log_ev (ws_write st z) EvFlush
+         | _ =>
+           let t := N.to_nat (N.min (drop_tail cx c plain) (nlen z)) in
+           let k := (length z - t)%nat in
+           ws_write_gen true (ws_log_ev (ws_write st (firstn k z)) EvFlush) (skipn k z)
+         end.
+
+  (** [Directory::to_writer(output, compression)] / [to_async_writer] on a stream *)
+  Definition write_dir (asy : bool) (c : compression) (es : list entry) (st : wstream) : outcome (wstream * N) :=
+    do _ <- compress cx asy c [];
+    do plain <- encode_dir_plain es;
+    do z <- compress cx asy c plain;
+    Ok (ws_write_codec asy c st plain z, nlen z).
+
   (** one pass over the chunks: the leaf section so far (reversed list of leaf blobs), its length, and
       the pointer entries (reversed).  Leaf directories are always written with the synchronous
       [to_writer] into an in-memory cursor, in the async variant too. *)
@@ -42,20 +62,22 @@ Section WithCtx.
       if leaf_size =? 0 then Crash IndexOob else          (* chunks(0) panics *)
       (* chunks(k) for k >= len is chunks(len): keeps the unary chunk size small *)
       do (leaves, ptrs) <- build_leaves c (chunks (N.to_nat (N.min leaf_size (N.max 1 (nlen es)))) es) 0 [] [];
-      let st1 := ws_seek st root_start in
-      do root <- encode_dir cx asy c ptrs;
-      let st2 := ws_write st1 root in
-      if nlen root <=? max_root_dir_length then Ok (st2, concat leaves)
-      else if 2 * leaf_size <? two64 then leaf_loop f asy c es (2 * leaf_size) st2 root_start
+      let st1 := ws_seek st root_start in                 (* [output.seek(root_dir_start)] returns the position *)
+      do (st2, _) <- write_dir asy c ptrs st1;
+      let '(st3, p) := ws_tell st2 in
+      do root_len <- sub64 p root_start;
+      if root_len <=? max_root_dir_length then Ok (st3, concat leaves)
+      else if 2 * leaf_size <? two64 then leaf_loop f asy c es (2 * leaf_size) st3 root_start
       else Crash Overflow
     end.
 
   (** [write_directories_impl]; [start_size = None] means the default (4096) *)
   Definition write_directories (asy : bool) (c : compression) (es : list entry) (start_size : option N)
              (st : wstream) : outcome (wstream * bytes) :=
-    let start_pos := ws_pos st in
-    do root <- encode_dir cx asy c es;
-    let st1 := ws_write st root in
-    if nlen root <=? max_root_dir_length then Ok (st1, [])
-    else leaf_loop 65 asy c es (match start_size with Some k => k | None => default_leaf_size end) st1 start_pos.
+    let '(st0, start_pos) := ws_tell st in
+    do (st1, _) <- write_dir asy c es st0;
+    let '(st2, p) := ws_tell st1 in
+    do root_len <- sub64 p start_pos;
+    if root_len <=? max_root_dir_length then Ok (st2, [])
+    else leaf_loop 65 asy c es (match start_size with Some k => k | None => default_leaf_size end) st2 start_pos.
 End WithCtx.
